@@ -173,7 +173,7 @@ Proof.
     cbn [fst st set_store]. eapply decay_trans; [apply decay_revoke_refresh|apply decay_revoke_access].
   - match goal with |- context [push cfg s ?x1 ?x2 ?x3 ?x4] => destruct (push_tables cfg s x1 x2 x3 x4) as [Hc [Ha [Hr _]]] end.
     now apply decay_eq_tables.
-  - unfold authorize_par.
+  - rewrite ?authorize_par_fst; unfold authorize_par0.
     destruct (key_of s uri) as [k|]; [|apply decay_refl].
     destruct (par (st s) k) as [pr|]; [|apply decay_refl].
     repeat match goal with |- context [if ?c then fail _ _ else _] => destruct c; [apply decay_eq_tables; reflexivity|] end.
